@@ -50,6 +50,18 @@ def addconn_race(ctx):
     res = lib.run_go(ctx, "multiplex", "TestVerifC01AddConnRace", timeout=600)
     lib.collect_go(ctx, res)
     ctx.log("addconn race: %d rounds, %d violations" % (res["evaluations"], len(res.get("violations", []))))
+    # a stream closed by both ends at once must not bring the session's active-stream counter to zero while another
+    # stream is in use (the inactivity timer would then close a healthy session): shared stress, C01 takes its
+    # "keeps working" verdict (session-died), the counter mismatch itself is C12's (count-mismatch)
+    cc = lib.run_go(ctx, "multiplex", "TestVerifMuxCloseVsCloseRace", timeout=900, tag="close_vs_close")
+    for v in cc.get("violations", []):
+        if v.get("key") == "session-died":
+            ctx.violations.append(v)
+        else:
+            ctx.notes.append("close-vs-close stress: %s (judged under C12)" % v.get("key"))
+    if cc.get("_died"):
+        raise lib.Inconclusive("close-vs-close stress died: %s" % cc.get("_stdout_tail"))
+    ctx.log("close-vs-close race: %d rounds, %d violations" % (cc["stats"].get("rounds", 0), len(cc.get("violations", []))))
     # client.MakeSession's retry loop (spec/ClientSession.tla): every script of failed dials / failed handshakes, in a bubble
     beh = []
     for mode, br in (("direct", "chrome"), ("direct", "firefox"), ("direct", "safari")):
